@@ -358,7 +358,7 @@ def _decl_name(decl):
 
 
 @st.composite
-def case_strategy(draw, func_names, ovl_names=None):
+def case_strategy(draw, func_names, ovl_names=None, deep_names=None):
     c = draw(st.booleans())
     flags = dict(c=c, fortran=c and draw(st.booleans()), python=draw(st.booleans()), lua=draw(st.booleans()))
     pool = ["d0", "d1", "d2", "d3", "d4"]
@@ -377,7 +377,9 @@ def case_strategy(draw, func_names, ovl_names=None):
     # a declaration switched ON for a language that is off at library level (any namespace depth)
     offl = [l for l in (["c"], ["c", "fortran"], ["python"], ["lua"]) if not flags[l[0]] and not (l == ["c", "fortran"] and flags["c"])]
     if func_names and offl and draw(st.booleans()):
-        for fn in draw(st.lists(st.sampled_from(func_names), min_size=1, max_size=2, unique=True)):
+        # (functions two or more namespaces deep are preferred: the flag has to travel up through every level)
+        pool2 = [f for f in func_names if f in (deep_names or ())] if deep_names and draw(st.booleans()) else func_names
+        for fn in draw(st.lists(st.sampled_from(pool2 or func_names), min_size=1, max_size=2, unique=True)):
             if fn not in overrides:
                 switch_on[fn] = draw(st.sampled_from(offl))
     return dict(flags=flags, dirs=dirs, overrides=overrides, switch_on=switch_on)
@@ -401,6 +403,20 @@ def model_function_names(model):
         # (documented: "unable to create C wrapper for function returning ... instance")
         res.append((f["name"], dict(python=f.get("py", True), lua=f.get("lua", True),
                                     c=f.get("rrow") not in ("RV", "RS3"))))
+    return res
+
+
+def deep_function_names(model):
+    """Free functions declared two or more namespaces deep."""
+    res = []
+
+    def rec(decls, depth):
+        for n in decls:
+            if n["kind"] == "func" and depth >= 2:
+                res.append(n["name"])
+            elif n["kind"] == "namespace":
+                rec(n["decls"], depth + 1)
+    rec(model["decls"], 0)
     return res
 
 
@@ -432,7 +448,7 @@ def run(ctx):
     models = smallgen.sample_models(ctx.seed, nlib, with_python=True, with_lua=True)
     for m in models:
         funcs = model_function_names(m)
-        cases = smallgen.sample(case_strategy([f for f, _ in funcs], overload_names(m)), ctx.seed + len(jobs), ncase)
+        cases = smallgen.sample(case_strategy([f for f, _ in funcs], overload_names(m), deep_function_names(m)), ctx.seed + len(jobs), ncase)
         jobs.append((m["library"], smallgen.to_yaml(m), [], cases, funcs))
     import random  # deterministic corpus selection from VERIF_SEED
     rnd = random.Random(ctx.seed)
